@@ -58,6 +58,18 @@ def gen_and_replay(rep, wd, exe, module, label, consts, subst, workers=12, heap=
         exectrace.validate(rep, wd, ev, "Trace_Exec_" + label)
     return n, bad
 
+def mc_any_failure(rep, wd, module, label, consts, subst):
+    """design level only: an error may be raised before ANY step of ANY program of the family (Inject action);
+    the discipline properties must hold in every state of every such behaviour."""
+    c = dict(BASE)
+    c.update(consts)
+    c["AnyFail"] = "TRUE"
+    cfg = "anyfail_%s.cfg" % label
+    write_cfg(wd, cfg, c, subst, INV, PROPS, emit=False)
+    r = run_tlc(wd, module, cfg, workers=12, heap="8g", timeout=3000, keep_vecs=False, deque=True)
+    need_ok(r, label + " (failure at any step)")
+    rep.add_tlc(r, label + "_anyfail")
+
 def repo_suite_traces(rep, wd):
     """the repository's own tests, run with the hooks on, as a trace source (code -> spec)"""
     import exectrace
